@@ -1362,6 +1362,8 @@ func runC10(res *hx.Result, rng *hx.Rng, tier string, outdir string) {
 		"send-then-end runs: 1..3 handlers of every flavour (MakeHandler with a queue of the harness, AddHandler with a consumer callback, ReceiveAny), 1..22 messages, the last 1..10 back to back, " +
 		"then the handler's life ends (the peer hangs up at once / connection reset / local Close / RemoveHandler / keep=false) while every consumer is still busy, on the same six transports, " +
 		"after RemoveHandler / keep=false a new handler takes the freed slot and more messages follow; " +
+		"one run per transport with payloads of 0, 1, MaxPayloadSize-1 and MaxPayloadSize bytes among small messages of three concurrent senders, then one frame of MaxPayloadSize+1 bytes (refused); " +
+		"transport handlers answer every (matched, keep) combination, (false, false) included; " +
 		"two sender runs in three are preceded (one in three also accompanied) by failing Sends on other connections of the process (8 kinds of failure, from 1..8 goroutines); " +
 		"operation sequences with 2..6 handlers (one in ten: 11..14 handlers, then removals) and 8..40 messages replayed on the model; non-trivial = the arrival order changes sender at least as often as there are senders, " +
 		"a dispatch c17script has >= 2 handlers, a start-up run has >= 2 handlers and >= 2 messages written ahead, or a send-then-end run has >= 2 messages; distinct by sha256 of (transport, arrival order), of the c17script text or of the start-up / send-then-end description"
